@@ -7,7 +7,7 @@
 use super::queue_core::*;
 use crate::common::Rng;
 use crate::sx::{self, Sx};
-use metrique_writer::sink::{BackgroundQueue, BackgroundQueueBuilder, BackgroundQueueJoinHandle, FlushWait, background_verif as bv};
+use metrique_writer::sink::{BackgroundQueue, BackgroundQueueBuilder, FlushWait, background_verif as bv};
 use metrique_writer::{AnyEntrySink, BoxEntrySink, EntrySink};
 use std::cell::Cell;
 use std::collections::HashMap;
